@@ -141,6 +141,7 @@ func gen(t *rapid.T) (*scen.Scenario, []string) {
 	pushKinds := []scen.PushSpec{
 		{Kind: "pong"}, {Kind: "ack"}, {Kind: "state-info"}, {Kind: "all-info"}, {Kind: "detailed-info"},
 		{Kind: "update", ContentRelated: true}, {Kind: "updates-too-long", ContentRelated: true},
+		{Kind: "bad-msg-clock"},
 	}
 	pingAt := -1
 	if rapid.IntRange(0, 2).Draw(t, "ping") > 0 {
@@ -155,6 +156,11 @@ func gen(t *rapid.T) (*scen.Scenario, []string) {
 		if st.Op == "answer" && rapid.IntRange(0, 2).Draw(t, "push") == 0 {
 			p := pushKinds[rapid.IntRange(0, len(pushKinds)-1).Draw(t, "pushkind")]
 			p.Arg = int64(rapid.IntRange(1, 1<<30).Draw(t, "arg")) << 2
+			if p.Kind == "bad-msg-clock" {
+				// the server's clock: minutes behind or ahead of the client's
+				p.Arg = int64(rapid.SampledFrom([]int{-300, -120, -31, 31, 120, 300}).Draw(t, "skew"))
+				cls = append(cls, "server-history:clock-skew-notification")
+			}
 			p.InContainer = rapid.Bool().Draw(t, "pushcont")
 			p.Gzip = p.ContentRelated && rapid.IntRange(0, 3).Draw(t, "pushgzip") == 0
 			steps = append(steps, scen.Step{Op: "push", Push: &p})
